@@ -2,7 +2,7 @@
    OCaml driver and by vm_compute in generated cases files. *)
 From Coq Require Import ZArith QArith List String Bool.
 From SKC Require Import Model.Val Base.QBool Base.QList Base.QRank Model.Dominance Model.Agg Model.Electre Model.Result Model.Select Model.Transform Model.Weights Model.Filters Model.Untie Model.Diff Model.Pipeline Model.Impute Model.RRT Model.Simus.
-From SKC Require Model.Alias.
+From SKC Require Model.Alias Model.Heap.
 Import ListNotations.
 Local Open Scope string_scope.
 
@@ -301,6 +301,12 @@ Definition run_accessor_surface (u : Z) : val :=
       eL (fun a => match Model.Alias.impl_mode a with Model.Alias.Copy _ => VB true | Model.Alias.Share _ => VB false end)
          (seq 0 Model.Alias.n_accessors)].
 
+(* ... and the arrays the constructor is given (Model/Heap.v) *)
+Definition run_ctor_surface (u : Z) : val :=
+  VL [eN Model.Heap.n_ctor_inputs;
+      eL (fun k => match Model.Heap.impl_cmode k with Model.Heap.CopyIn => VB true | Model.Heap.Adopt => VB false end)
+         (seq 0 Model.Heap.n_ctor_inputs)].
+
 Definition dispatch (fn : string) (arg : val) : val :=
   if fn =? "dominance" then with_arg (dP2 (dL dB) dMatrix) run_dominance arg
   else if fn =? "rank" then with_arg (dP2 dB (dL dQ)) run_rank arg
@@ -332,6 +338,7 @@ Definition dispatch (fn : string) (arg : val) : val :=
   else if fn =? "normalise_rows" then with_arg dMatrix run_normalise_rows arg
   else if fn =? "credit_sorted" then with_arg (dL dQ) run_credit_sorted arg
   else if fn =? "accessor_surface" then with_arg dZ run_accessor_surface arg
+  else if fn =? "ctor_surface" then with_arg dZ run_ctor_surface arg
   else if fn =? "wsm" then with_arg dDM run_wsm arg
   else if fn =? "ratio" then with_arg dDM run_ratio arg
   else if fn =? "refpoint" then with_arg dDM run_refpoint arg
